@@ -284,14 +284,31 @@ def install(interp):
             acc = interp.binop(__import__("operator").add, acc, v)
         return acc
 
+    def _representatives(x):
+        """elements of a symbolic-length mapped sequence that represent all of its elements (None: not available)"""
+        from .symseq import MapSeq
+
+        if isinstance(x, MapSeq) and not x.concrete_len():
+            h = getattr(x.src, "rep_indices", None)
+            if h is not None:
+                n = x.src.length()
+                out = []
+                for i in h(interp):
+                    if interp.truth(wrap(z3.And(tz(i) >= 0, tz(i) < tz(n)))):
+                        out.append(x.get(interp, i))
+                return out
+        return None
+
     def py_all(x):
-        for v in interp.iterate(x):
+        reps = _representatives(x)
+        for v in (reps if reps is not None else interp.iterate(x)):
             if not interp.truth(v):
                 return False
         return True
 
     def py_any(x):
-        for v in interp.iterate(x):
+        reps = _representatives(x)
+        for v in (reps if reps is not None else interp.iterate(x)):
             if interp.truth(v):
                 return True
         return False
